@@ -52,6 +52,12 @@ def gen_cases(tier, seed):
             for variant in range(3):
                 j += 1
                 yield {'family': obs, 'idx': 10 ** 6 + j, 'seed': seed, 'edge': 'raw_csv_load', 'variant': variant}
+        # resources of a VALID data package that are not in the shape dataflows itself writes: inline data (no path),
+        # a multipart path (list of files), a field without 'type'
+        for obs in OBSERVERS[:-1]:
+            for pshape in ('inline', 'multipart', 'typeless'):
+                j += 1
+                yield {'family': obs, 'idx': 10 ** 6 + j, 'seed': seed, 'edge': 'foreign_package', 'pkg_shape': pshape}
 
 
 EDGES = ['inner_join_empty_source', 'inner_join_empty_target', 'inner_join_no_match', 'join_source_delete',
@@ -91,6 +97,11 @@ def edge_program(rng, edge):
     if edge == 'dedup_all_same':
         return [tab('a', rows(0, big, n=1))], [{'op': 'set_primary_key', 'res': 'a', 'sel': 'a', 'pk': ['n']},
                                                   {'op': 'deduplicate', 'res': 'a', 'sel': 'a'}], 1
+    if edge.startswith('foreign_package/'):
+        n = rng.choice([2, 7, 30])
+        t = {'name': 'fp', 'kind': 'package', 'pkg_shape': edge.split('/')[1], 'fields': [list(f) for f in F],
+             'rows': rows(0, n)}
+        return [t], [], 0
     if edge == 'raw_csv_load':
         n = rng.choice([2, 7, 120])
         cols = [['id', 'integer'], ['b', 'boolean'], ['t', 'datetime'], ['x', 'number'], ['dt', 'date'], ['s', 'string']]
@@ -111,8 +122,8 @@ def proj(desc):
     out = []
     for r in desc.get('resources', []):
         sch = r.get('schema', {})
-        out.append((r['name'], [(f['name'], f['type']) for f in sch.get('fields', [])],
-                    sch.get('primaryKey') or None, sch.get('missingValues')))
+        out.append((r['name'], [(f['name'], f.get('type', 'string')) for f in sch.get('fields', [])],
+                    sch.get('primaryKey') or None, sch.get('missingValues', [''])))     # (Table Schema default: [''])
     return out
 
 
@@ -149,7 +160,8 @@ def run_case(case):
     specs = [dict(sp, form='function') if sp['op'] == 'user' else sp for sp in ok_specs]
     p = rng.randint(0, len(specs))
     if case.get('edge'):
-        tables, specs, p = edge_program(rng, case['edge'])
+        edge_ = case['edge'] + ('/' + case['pkg_shape'] if case.get('pkg_shape') else '')
+        tables, specs, p = edge_program(rng, edge_)
     prefix, suffix = specs[:p], specs[p:]
     prog = dsl.render(tables, specs)
     discards = sorted({s['op'] for s in suffix if s['op'] in DISCARDERS})
